@@ -30,7 +30,7 @@ from pydrobert.speech import util as _util
 PROPERTY = "C11"
 LEVEL = "exploration"
 TIERS = {
-    "quick": {"runs": 9000, "budget": 80, "selftest": 32, "shrink_budget": 200},
+    "quick": {"runs": 22000, "budget": 70, "selftest": 64, "shrink_budget": 200},
     "thorough": {"runs": 250000, "budget": 1500, "selftest": 1000, "shrink_budget": 600},
 }
 RULE = (
